@@ -29,6 +29,9 @@ import RigModel.Lemmas.C03Strong
 import RigModel.Lemmas.C03Surgery
 import RigModel.Lemmas.C03RepairInv
 import RigModel.Lemmas.C03RepairValid
+import RigModel.Lemmas.C03RepairTotal
+import RigModel.Lemmas.C03CopyTotal
+import RigModel.Lemmas.C03RouteTotal
 import RigModel.Props.Cross03_11
 set_option linter.unusedSimpArgs false
 set_option linter.unusedVariables false
@@ -485,5 +488,76 @@ theorem legacy_two_parents_witness :
          | some t => validTree f3Machine (0, 1) f3Sinks t
          | none => false)
      | .error _ => false) = true := by decide +kernel
+
+/-! ## Round 3: `route_only_failure` on machines with faults -/
+
+/-- **The disconnecting copy cannot fail on a well-formed tree** rooted at a working chip (no chip is visited
+twice: never `dupNode`; the `while to_visit` loop ends within `len + 1` iterations: never `fuel`; the source
+is alive: no assertion), and its lookup contains every working chip of the tree. -/
+theorem copyAndDisconnect_total (old : Forest) (rank : Chip → Nat) (root : Chip) (m : Machine)
+    (hw : L.WF old rank) (hkk : L.ClosedF old) (hrk : root ∈ old.keys) (hnp : L.NoParent old root)
+    (hlive : chipOk m root = true) :
+    ∃ cs, copyAndDisconnect old root m = .ok cs ∧
+      ∀ x, L.Below old root x → chipOk m x = true → x ∈ cs.lookup.keys :=
+  L.copyAndDisconnect_total hw hkk hrk hnp hlive
+
+/-- **The body of the repair loop fails only through A\***: with the forest invariant the subtree enumeration
+never runs out of fuel, the `Cycle created` assertion never fires, the path is never empty; either the body
+succeeds or `a_star` (called with sources that exclude the orphan and contain every other component root)
+reported `MachineHasDisconnectedSubregion`. -/
+theorem repairOne_only_disconnected (m : Machine) (wrap : Bool) (f : Forest) (pc : Chip × Chip) (R : List Chip)
+    (hi : L.RInv f R) (hchild : pc.2 ∈ R) (hlive : chipOk m pc.2 = true) :
+    ∃ sources, sources.contains pc.2 = false ∧ (∀ r, r ∈ R → r ≠ pc.2 → r ∈ sources) ∧
+      ((∃ f' path, repairOne m wrap false f pc = .ok (f', path)) ∨
+       (repairOne m wrap false f pc = .error .disconnected ∧
+        aStar pc.2 pc.1 sources m wrap = .error .disconnected)) :=
+  L.repairOne_cases hi hchild hlive
+
+/-- **`route_only_failure`, every machine** (fixed repair loop).  For a net whose source and sinks are placed on
+working chips (destinations inside the machine, every sink on the source chip or a destination chip), for every
+radius, tape and processing order: the only errors of the model of `route()` are
+`MachineHasDisconnectedSubregion` and the errors of the model's oracle inputs (tape exhausted / draw out of
+range / order not an ordering of the broken links - impossible for recordings of a real run); in particular
+never `dupNode`, `KeyError`, `TypeError`, an assertion or exhausted fuel (non-termination).  And
+`MachineHasDisconnectedSubregion` is raised only if the machine is not strongly connected. -/
+theorem route_only_failure (m : Machine) (src : Chip) (dests : List Chip) (radius : Nat) (t : Tape)
+    (order : List (Chip × Chip)) (sinks : List Sink)
+    (hs : chipOk m src = true) (hd : ∀ d, d ∈ dests → InRange m d)
+    (hsk : ∀ s, s ∈ sinks → (s.chip = src ∨ s.chip ∈ dests) ∧ chipOk m s.chip = true)
+    (e : Err) (h : routeNet m src dests radius t order sinks false = .error e) :
+    (e = .tape ∨ e = .badDraw ∨ e = .badOracle ∨ e = .disconnected) ∧
+    (e = .disconnected → stronglyConnected m = false) :=
+  L.routeNet_only_failure m src dests radius t order sinks hs hd hsk e h
+
+/-- **On a strongly connected machine `route()` does not fail** (only an oracle error of the model is left), and
+(by `avoidDeadLinks_valid` / `routeNet_tree_partial`) what it returns after a repair is a valid routing tree. -/
+theorem route_succeeds_strongly_connected (m : Machine) (hsc : stronglyConnected m = true) (src : Chip)
+    (dests : List Chip) (radius : Nat) (t : Tape) (order : List (Chip × Chip)) (sinks : List Sink)
+    (hs : chipOk m src = true) (hd : ∀ d, d ∈ dests → InRange m d)
+    (hsk : ∀ s, s ∈ sinks → (s.chip = src ∨ s.chip ∈ dests) ∧ chipOk m s.chip = true) :
+    (∃ r, routeNet m src dests radius t order sinks false = .ok r) ∨
+    (∃ e, routeNet m src dests radius t order sinks false = .error e ∧
+      (e = .tape ∨ e = .badDraw ∨ e = .badOracle)) := by
+  cases h : routeNet m src dests radius t order sinks false with
+  | ok r => exact Or.inl ⟨r, rfl⟩
+  | error e =>
+    right
+    obtain ⟨h1, h2⟩ := route_only_failure m src dests radius t order sinks hs hd hsk e h
+    refine ⟨e, rfl, ?_⟩
+    rcases h1 with h1 | h1 | h1 | h1
+    · exact Or.inl h1
+    · exact Or.inr (Or.inl h1)
+    · exact Or.inr (Or.inr h1)
+    · have := h2 h1; rw [hsc] at this; cases this
+
+/-- non-vacuity: on the 3 x 1 machine with dead chip (1, 0) and dead wrap links the net (0,0) -> (2,0) satisfies
+the hypotheses and `route()` reports the machine disconnected -/
+example : (match routeNet ⟨3, 1, [(1, 0)], [((2, 0), 0), ((2, 0), 1), ((2, 0), 5), ((2, 0), 2), ((2, 0), 4),
+      ((0, 0), 3), ((0, 0), 4), ((0, 0), 2), ((0, 0), 1), ((0, 0), 5)]⟩ (0, 0) [(2, 0)] 1 [0, 0, 0, 0, 0, 0, 0]
+      [((0, 0), (2, 0))] [⟨1, (2, 0), 1, 2, 4⟩] false with
+      | .error .disconnected => true
+      | _ => false) = true ∧
+    chipOk ⟨3, 1, [(1, 0)], [((2, 0), 0), ((2, 0), 1), ((2, 0), 5), ((2, 0), 2), ((2, 0), 4),
+      ((0, 0), 3), ((0, 0), 4), ((0, 0), 2), ((0, 0), 1), ((0, 0), 5)]⟩ (2, 0) = true := by decide +kernel
 
 end Rig.C03
